@@ -12,7 +12,10 @@ func init() {
 		Rules: append(writerRules("W1", "W2", "W3", "W4", "W5", "W8"),
 			RuleDef{Name: "CUR-WRITE", What: "Writer.Write: bytes copied advance the source slice, the block cursor and the returned count together; the copy lands at the cursor", Floor: 1, Run: ruleCurWrite},
 			RuleDef{Name: "CUR-COUNT", What: "countReader.off advances by exactly what was consumed (Read, ReadByte, seek)", Floor: 3, Run: ruleCurCount},
-			bgzfConst, bsize),
+			bgzfConst, bsize,
+			RuleDef{Name: "PATH-NEED", What: "the reader accepts every member size a conforming writer can produce (1..MaxBlockSize) and classifies 0 / negative / missing BSIZE", Floor: 1, Run: ruleNeed},
+			RuleDef{Name: "PATH-READFULL", What: "member body = exactly BSIZE+1 minus consumed header bytes", Floor: 2, Run: ruleReadFull},
+			RuleDef{Name: "PATH-LASTCHUNK", What: "Read/ReadByte skip every empty member (emptiness re-tested after each block change) before consuming", Floor: 2, Run: ruleLastChunk}),
 		Explanation: "Decides the parts of the round trip that hold by construction for every concurrency and schedule: the hand-off protocol that makes the order of members in the file the order of Write calls (W1–W5, W8: each block is queued once, compressed once, emitted by the single emitter in queue order, all three submission sites), the cursor accounting in Write (CUR-WRITE) and in the reader's offset counter (CUR-COUNT, which NextBase/seek arithmetic rests on), the BSIZE framing pair in the bit domain (BIT-BSIZE) and the size constants (TAB-BGZF: a full block always fits a member).",
 		NotDecided:  "that the split arithmetic in Write loses or duplicates no byte for every length, inflate(deflate(x)) = x, and the reader's walk over members – value-level.",
 		Assumptions: []string{"compress/gzip, compress/flate are correct"},
